@@ -420,8 +420,8 @@ theorem balWF_setBal {s : State} (h : BalWF s.bal) (a : Addr) {x : Int} (hx : 0 
 
 /-- `send` succeeds exactly when the source can pay -/
 theorem send_eq_some {s : State} {src dst : Addr} {amt : Int} (h : amt ≤ balOf s src) :
-    send s src dst amt = some (setBal (setBal s src (balOf s src - amt)) dst
-      (balOf (setBal s src (balOf s src - amt)) dst + amt)) := by
+    send s src dst amt = some (touch (setBal (setBal s src (balOf s src - amt)) dst
+      (balOf (setBal s src (balOf s src - amt)) dst + amt)) dst) := by
   unfold send
   have : ¬ balOf s src < amt := by omega
   simp [this]
@@ -463,7 +463,7 @@ theorem balOf_send {s s' : State} (h : KeysAsc s.bal) {src dst : Addr} {amt : In
     unfold setBal; split
     · exact keysAsc_adel h _
     · exact keysAsc_aset h _ _
-  rw [balOf_setBal h1]
+  rw [balOf_touch, balOf_setBal h1]
   by_cases hd : b = dst <;> by_cases hsrc : b = src
   · subst hd; subst hsrc; simp [balOf_setBal h]
   · subst hd; simp [balOf_setBal h, hsrc]
@@ -479,7 +479,7 @@ theorem sumBal_send {s s' : State} (h : KeysAsc s.bal) {src dst : Addr} {amt : I
     unfold setBal; split
     · exact keysAsc_adel h _
     · exact keysAsc_aset h _ _
-  rw [sumBal_setBal h1, sumBal_setBal h]
+  rw [sumBal_touch, sumBal_setBal h1, sumBal_setBal h]
   omega
 
 theorem balWF_send {s s' : State} (h : BalWF s.bal) {src dst : Addr} {amt : Int} (hamt : 0 ≤ amt)
@@ -1807,7 +1807,7 @@ theorem anteOK_spec {s : State} {t : Tx} {sim : Bool} (h : anteOK s t sim = true
   · simp at hm
   · rename_i verif hverif
     simp only [Bool.and_eq_true, decide_eq_true_eq, beq_iff_eq] at hm
-    obtain ⟨⟨⟨⟨hv, _⟩, _⟩, _⟩, hbal⟩ := hm
+    obtain ⟨⟨⟨⟨⟨hv, _⟩, _⟩, _⟩, _⟩, hbal⟩ := hm
     refine ⟨?_, by omega⟩
     split at hverif
     · exact ⟨_, lookup_mem hverif, hv⟩
